@@ -83,29 +83,16 @@ Section I64.
          repeat match goal with |- context [if ?c then _ else _] => destruct c end;
          try discriminate; apply of_option_not_panic. Qed.
 
-  Lemma rgcd_np a b : rgcd a b <> Panic.
-  Proof. unfold rgcd. destruct (gcd_loop gcd_fuel a b) eqn:E; simpl; try discriminate.
-         - apply of_option_not_panic.
-         - exfalso. revert a b E. generalize gcd_fuel. induction n; simpl; intros; [discriminate|].
-           destruct (b =? 0)%Z; [discriminate|]. eapply IHn; eauto. Qed.
-  Lemma rlcm_np a b : rlcm a b <> Panic.
-  Proof. unfold rlcm. destruct ((a =? 0)%Z || (b =? 0)%Z); [discriminate|].
-         pose proof (rgcd_np a b). destruct (rgcd a b); simpl; try discriminate; try congruence.
-         destruct (checked_mul _ _); simpl; try discriminate. apply of_option_not_panic. Qed.
-
-  Lemma fold_opt_np f acc vs r :
-    (forall a b, f a b <> Panic) -> fold_opt f acc vs <> Panic /\
-    (fold_opt f acc vs = Ok r -> (acc <> None \/ vs <> []) -> r <> None).
-  Proof.
-    intros Hf. revert acc r. induction vs as [|v vs IH]; intros acc r; simpl.
-    - split; [discriminate|]. intros H [Ha|Hv]; [inversion H; subst; assumption|congruence].
-    - destruct acc as [a|].
-      + pose proof (Hf a v) as Hfa. destruct (f a v) eqn:E; simpl; try congruence.
-        * destruct (IH (Some a0) r) as [I1 I2]. split; [assumption|]. intros H _. apply I2; [assumption|left; discriminate].
-        * split; discriminate.
-        * split; discriminate.
-      + destruct (IH (Some v) r) as [I1 I2]. split; [assumption|]. intros H _. apply I2; [assumption|left; discriminate].
-  Qed.
+  Lemma ugcd_np a b : ugcd a b <> Panic.
+  Proof. unfold ugcd. generalize gcd_fuel. intros n. revert a b. induction n; simpl; intros; [discriminate|].
+         destruct (b =? 0)%Z; [discriminate|]. apply IHn. Qed.
+  Lemma ulcm_np a b : ulcm a b <> Panic.
+  Proof. unfold ulcm. destruct ((a =? 0)%Z || (b =? 0)%Z); [discriminate|].
+         pose proof (ugcd_np a b). destruct (ugcd a b); simpl; try discriminate; try congruence.
+         destruct (_ <=? _)%Z; discriminate. Qed.
+  Lemma rfold_np f acc vs : (forall a b, f a b <> Panic) -> rfold f acc vs <> Panic.
+  Proof. intros Hf. revert acc. induction vs as [|v vs IH]; intros acc; simpl; [discriminate|].
+         pose proof (Hf acc v). destruct (f acc v); simpl; try discriminate; try congruence; apply IH. Qed.
 
   Lemma agg_i64_np g vs : vs <> [] -> agg_i64 g vs <> Panic.
   Proof.
@@ -118,18 +105,11 @@ Section I64.
       destruct (Nat.even (length vs)).
       + destruct (Hy eq_refl) as [y Hy']. rewrite Hx, Hy'. simpl. destruct vs; [congruence|discriminate].
       + rewrite Hx. discriminate.
-    - destruct (1 <? length vs)%nat.
-      + destruct (fold_opt rgcd None vs) eqn:E; simpl; try discriminate.
-        * destruct a; [discriminate|]. exfalso.
-          destruct (fold_opt_np rgcd None vs None rgcd_np) as [_ I2]. apply (I2 E); [right; assumption|reflexivity].
-        * destruct (fold_opt_np rgcd None vs None rgcd_np) as [I1 _]. congruence.
-      + destruct vs; discriminate.
-    - destruct (1 <? length vs)%nat.
-      + destruct (fold_opt rlcm None vs) eqn:E; simpl; try discriminate.
-        * destruct a; [discriminate|]. exfalso.
-          destruct (fold_opt_np rlcm None vs None rlcm_np) as [_ I2]. apply (I2 E); [right; assumption|reflexivity].
-        * destruct (fold_opt_np rlcm None vs None rlcm_np) as [I1 _]. congruence.
-      + destruct vs; discriminate.
+    - pose proof (rfold_np ugcd 0%Z (map Z.abs vs) ugcd_np). destruct (rfold ugcd 0%Z (map Z.abs vs)); simpl; try discriminate; try congruence.
+      apply of_option_not_panic.
+    - destruct (existsb (Z.eqb 0) (map Z.abs vs)); [discriminate|].
+      pose proof (rfold_np ulcm 1%Z (map Z.abs vs) ulcm_np). destruct (rfold ulcm 1%Z (map Z.abs vs)); simpl; try discriminate; try congruence.
+      apply of_option_not_panic.
   Qed.
 
   Theorem eval_i64_no_panic a : wf a = true -> eval_i64 L a <> Panic.
